@@ -51,6 +51,10 @@ def abstract_unsat(formulas, timeout_ms):
             print('abstraction unsupported:', e)
         return False
     s = _mk_solver(timeout_ms)
+    # E-matching only: the abstract query has quantified axioms; on a satisfiable query (a feasible path) model-based
+    # instantiation would grind until the resource limit, and a model is of no use here anyway
+    s.set('auto_config', False)
+    s.set('smt.mbqi', False)
     for f in fs:
         s.add(f)
     r = s.check()
